@@ -8,14 +8,33 @@ pub fn source(case: &str) -> String {
   let mut defs = String::new();
   let mut lit = String::from("[");
   let mut n = 0;
+  // how each block is written: `v` a variable, `l` a nested literal (kinds whose literals need no annotation),
+  // `e` the value of an expression (the variable combined with a neutral element of its kind)
+  let forms: Vec<char> = f.get(2).map(|x| x.chars().collect()).unwrap_or_default();
+  let mut neutral_defined: Vec<String> = vec![];
   for (ri, row) in f[1].split(";;").enumerate() {
     if ri > 0 { lit.push_str("; "); }
     for (bi, blk) in row.split(",,").enumerate() {
       let (kind, o) = blk.split_once('~').unwrap();
-      let name = format!("b{}", n); n += 1;
-      defs.push_str(&operand_def(&name, kind, o, false));
+      let name = format!("b{}", n);
+      let form = forms.get(n).copied().unwrap_or('v'); n += 1;
+      let def = operand_def(&name, kind, o, false);
       if bi > 0 { lit.push(' '); }
-      lit.push_str(&name);
+      let plain = kind == "f64" || kind == "bool" || kind == "string" || kind == "r64" || kind == "c64";
+      match form {
+        'l' if plain && !o.starts_with('S') => { lit.push_str(def.trim_end().split_once(" := ").unwrap().1); }
+        'e' if kind != "string" => {
+          defs.push_str(&def);
+          let zn = format!("z{}", kind);
+          if !neutral_defined.contains(&zn) {
+            let zero = match kind { "bool" => "true".to_string(), "r64" => "0/1".to_string(), "c64" => "0+0i".to_string(), "f64" | "f32" => "0.0".to_string(), _ => "0".to_string() };
+            let ann = if plain { String::new() } else { format!("<{}>", kind) };
+            defs.push_str(&format!("{}{} := {}\n", zn, ann, zero)); neutral_defined.push(zn.clone());
+          }
+          lit.push_str(&if kind == "bool" { format!("({} && {})", name, zn) } else { format!("({} + {})", name, zn) });
+        }
+        _ => { defs.push_str(&def); lit.push_str(&name); }
+      }
     }
   }
   lit.push(']');
@@ -77,7 +96,10 @@ pub fn generate(seed: u64, thorough: bool, sink: &mut Sink) -> Vec<String> {
       }
       rows_txt.push(blocks.join(",,"));
     }
-    cases.push(format!("concat\t{}", rows_txt.join(";;")));
+    // two cases in three write some blocks as nested literals or expression values instead of variables
+    let nblocks: usize = rows_txt.iter().map(|r| r.split(",,").count()).sum();
+    let forms: String = if rng.chance(1, 3) { "v".repeat(nblocks) } else { (0..nblocks).map(|_| *rng.pick(&['v', 'l', 'e', 'l', 'e'])).collect() };
+    cases.push(format!("concat\t{}\t{}", rows_txt.join(";;"), forms));
     sink.hit(&format!("tiling:{}rows:{}", nrows, sab));
     if it < 3 { sink.sample(cases[cases.len() - 1].clone()); }
   }
